@@ -3,6 +3,8 @@ from zcverif_dt.fam import Wrapped
 
 
 def up(s):
+    from zcverif_dt.fam import reenter
+    reenter()
     return "p1:" + s.upper()
 
 
